@@ -427,6 +427,10 @@ pub async fn run_client(w: Rc<World>, plan: Rc<Plan>) {
 // sender tasks
 
 pub fn start_senders(w: &Rc<World>, plan: &Rc<Plan>, sink: v3::MqttSink) {
+    if plan.senders.iter().flatten().any(|o| matches!(o, AppOp::PubQ1Nb { .. })) {
+        let w = w.clone();
+        sink.publish_ack_cb(move |pid, disc| w.ack_cb(pid.get(), 0, 0, disc));
+    }
     for (sidx, ops) in plan.senders.iter().enumerate() {
         let slot = w.add_sender(ops.len());
         debug_assert_eq!(slot, sidx);
@@ -557,6 +561,32 @@ async fn exec_op(w: &Rc<World>, sidx: usize, opi: usize, op: &AppOp, sink: &v3::
             }
             match b.send_at_least_once(Bytes::from(make_payload(tag, *len as usize))).await {
                 Ok(()) => okp("puback", *pid),
+                Err(e) => OpResult::Err(err_str(&e)),
+            }
+        }
+        AppOp::PubQ1Nb { len, pid } => {
+            // the non-blocking send panics on a sink that is not ready: wait for readiness first
+            while sink.is_open() && !sink.is_ready() {
+                if !sink.ready().await {
+                    break;
+                }
+            }
+            if sink.is_open() && !sink.is_ready() {
+                return OpResult::Err("Disconnected".into());
+            }
+            // the id the library would pick is not reported by this API: the caller always chooses
+            let pid = pid.unwrap_or(200 + (sidx * 16 + opi) as u16);
+            let mark = w.cb_mark();
+            let b = sink.publish(topic).packet_id(pid);
+            match b.send_at_least_once_no_block(Bytes::from(make_payload(tag, *len as usize))) {
+                Ok(()) => {
+                    let (code, sig, disc) = w.cb_wait(pid, mark).await;
+                    if disc {
+                        OpResult::Err("Disconnected".into())
+                    } else {
+                        { let _ = (code, sig); okp("puback", Some(pid)) }
+                    }
+                }
                 Err(e) => OpResult::Err(err_str(&e)),
             }
         }
